@@ -127,6 +127,7 @@ def run(repo, rep):
     rule_literal_options(repo, rep, vela)
     rule_docs(repo, rep, vela, af)
     rule_ini(repo, rep, af)
+    rule_round4(repo, rep, vela, af)
 
 
 # ------------------------------------------------------------------ a
@@ -626,3 +627,35 @@ def rule_ini(repo, rep, af):
             if k.endswith("_mem_area"):
                 rep.check(v in ports, "C18-f", site, f"[{sec}] {k}={v} is a MemPort", "illegal port")
     rep.floor("C18-f", 60)
+
+
+def rule_round4(repo, rep, vela, af):
+    """Unspecified options take "1 (or the equivalent)": the by-value enum constructions that initialise them denote the
+    first real member; the i.MX93 subclass (which replaces the internal defaults) is only built for the all-default selection."""
+    from ..astutil import enum_members
+
+    gv = af.func("ArchitectureFeatures._get_vela_config")
+    first = {"MemPort": "Axi0", "MemArea": "Sram"}
+    homes = {"MemPort": repo.mod("architecture_features"), "MemArea": repo.mod("tensor")}
+    n = 0
+    for c in ast.walk(gv):
+        if isinstance(c, ast.Call) and isinstance(c.func, ast.Name) and c.func.id in first and len(c.args) == 1 and isinstance(c.args[0], ast.Constant):
+            mem = enum_members(homes[c.func.id].cls(c.func.id))
+            hit = [k for k, v in mem.items() if v == c.args[0].value]
+            n += 1
+            rep.check(hit[:1] == [first[c.func.id]], "C18-b", f"{AF}:ArchitectureFeatures._get_vela_config", f"initial value `{norm(c)}` of an unspecified option is {c.func.id}.{first[c.func.id]} (the documented 'value of 1 or the equivalent')",
+                      f"`{norm(c)}` denotes {hit or 'no member'} under the current numbering of {c.func.id}: an option that no selected section specifies resolves to a different port / memory than documented")
+    if n < 5:
+        raise AnalysisError(f"_get_vela_config: only {n} by-value enum initialisations found")
+    nx = 0
+    for q, fn in vela.functions.items():
+        for c in ast.walk(fn):
+            if isinstance(c, ast.Call) and (call_name(c) or "").split(".")[-1] == "Imx93ArchitectureFeatures":
+                kw = {k.arg: str(norm(k.value)) for k in c.keywords}
+                nx += 1
+                ok = all(kw.get(k_, "").endswith("DEFAULT_CONFIG") for k_ in ("system_config", "memory_mode"))
+                rep.check(ok, "C18-e", f"{VP}:{q}", "Imx93ArchitectureFeatures (which replaces the internal-default system configuration) is built only with system_config = memory_mode = internal-default",
+                          f"built with system_config={kw.get('system_config')}, memory_mode={kw.get('memory_mode')}: a selection made with --config / --memory-mode while the system configuration is left "
+                          "unspecified gets the i.MX93 values instead of the documented internal-default mapping")
+    if nx < 3:
+        raise AnalysisError(f"Imx93ArchitectureFeatures construction sites: only {nx} found")
